@@ -800,6 +800,9 @@ class TT():
             torchtt.TT | torch.tensor: the result. Can be full tensor if the second operand is full tensor.
         """
 
+        if not isinstance(other, TT) and not (self.__is_ttm and tn.is_tensor(other)):
+            raise InvalidArguments("Wrong arguments.")
+
         if self.__is_ttm and tn.is_tensor(other):
             if self.__N != list(other.shape)[-len(self.N):]:
                 raise ShapeMismatch("Shapes do not match.")
